@@ -129,3 +129,36 @@ Proof.
   split; [apply valid_load_b; vm_compute; reflexivity|]. split; [apply valid_load_b; vm_compute; reflexivity|].
   vm_compute. reflexivity.
 Qed.
+
+(* [HISTORICAL] the in-place variant of Vars.Merge (before 9941da6): a diamond whose shared file is included
+   once in long form with dir: and once in short form; whether the long-form dir reaches the short-form
+   branch (and the root's globals) depends on which sibling graph.Merge processes first *)
+Definition mk_inc_dir (ns file dir : string) : include :=
+  {| i_ns := ns; i_taskfile := file; i_dir := dir; i_optional := false; i_internal := false; i_flatten := false;
+     i_advanced := true; i_aliases := []; i_excludes := []; i_vars := [];
+     i_taskfile_t := [TLit file]; i_dir_t := [TLit dir] |}.
+Definition fs_dirleak : fsys :=
+  [("/R/Taskfile.yml", mk_file [] [mk_inc "app" "./app.yml" false; mk_inc "lib" "./lib.yml" false] [mk_task "root" [sh "echo ROOT"] [] []]);
+   ("/R/app.yml", mk_file [] [mk_inc_dir "common" "./common.yml" "./appdir"] []);
+   ("/R/lib.yml", mk_file [] [mk_inc "common" "./common.yml" false] []);
+   ("/R/common.yml", mk_file [("WHERE", "|sh=basename $PWD")] [] [mk_task "where" [sh "echo {{.WHERE}}"] [] []])].
+Definition inplace_variant : variant :=
+  {| v_task_dc := v_task_dc current_variant; v_cmd_dc := v_cmd_dc current_variant; v_dep_dc := v_dep_dc current_variant;
+     v_keep_rootref := v_keep_rootref current_variant; v_declared := true; v_inplace := true |}.
+Definition copy_variant : variant :=
+  {| v_task_dc := v_task_dc current_variant; v_cmd_dc := v_cmd_dc current_variant; v_dep_dc := v_dep_dc current_variant;
+     v_keep_rootref := v_keep_rootref current_variant; v_declared := true; v_inplace := false |}.
+Definition pi_app_first : list string := ["/R/Taskfile.yml"; "/R/app.yml"; "/R/lib.yml"; "/R/common.yml"].
+Definition pi_lib_first : list string := ["/R/Taskfile.yml"; "/R/lib.yml"; "/R/app.yml"; "/R/common.yml"].
+
+Lemma vardir_inplace_refuted :
+  let g := graph_of fs_dirleak in
+  topob g pi_app_first = true /\ topob g pi_lib_first = true /\
+  f_err (merge_all inplace_variant g pi_app_first sigma_id) = None /\
+  f_err (merge_all inplace_variant g pi_lib_first sigma_id) = None /\
+  f_vars (merge_all inplace_variant g pi_app_first sigma_id) = [("WHERE", "|sh=basename $PWD")] /\
+  f_vars (merge_all inplace_variant g pi_lib_first sigma_id) = [("WHERE", "/R/appdir|sh=basename $PWD")] /\
+  (* the repaired variant gives the short-form branch its own, unstamped copy under both orders *)
+  f_vars (merge_all copy_variant g pi_app_first sigma_id) = [("WHERE", "|sh=basename $PWD")] /\
+  f_vars (merge_all copy_variant g pi_lib_first sigma_id) = [("WHERE", "|sh=basename $PWD")].
+Proof. vm_compute. repeat split; reflexivity. Qed.
